@@ -533,6 +533,13 @@ func generate(out *kit.Out, f kit.Flags) {
 		var id string
 		k := i % 10
 		switch {
+		// slot tables (httpOut behind a deleting barrier): wall-clock cases, a fixed dozen per run, the position of
+		// the first deleted slot rotating first / newest / middle
+		case only == "slot" || (only == "" && i%200 == 17):
+			id, ls = fmt.Sprintf("s%d", i), genSlot(rr, i/200+int(f.Seed))
+			if only == "slot" {
+				id, ls = fmt.Sprintf("s%d", i), genSlot(rr, i+int(f.Seed))
+			}
 		case only == "gid" || (only == "" && k < 5):
 			id, ls = fmt.Sprintf("g%d", i), genGid(rr)
 		case only == "gb" || (only == "" && k < 6):
